@@ -179,15 +179,8 @@ Proof.
   intros H. revert n. induction H as [|x l Hx Hl IH]; intros [|n]; cbn [skipn]; auto.
 Qed.
 
-(** the cells the property asks for: the first W, the last W, or the W cells after
-    dropping floor(excess/2) on the left *)
-Definition trunc_spec (s : str) (w : N) (a : align) : str :=
-  let e := cols s - w in
-  match a with
-  | ALeft => firstn (N.to_nat w) s
-  | ARight => skipn (N.to_nat e) s
-  | ACenter => firstn (N.to_nat w) (skipn (N.to_nat (e / 2)) s)
-  end.
+(** [trunc_spec] (the cells the property asks for), [e_acute], [cjk]: statement vocabulary, defined
+    in model/Padded.v *)
 
 Theorem trunc_ascii s w a : Forall ascii1 s -> w < cols s ->
   padded s w a true = Ok (trunc_spec s w a)
@@ -265,8 +258,6 @@ Proof.
 Qed.
 
 (** the truncation clause, for content in general, is false *)
-Definition e_acute : ch := mkch 233 1.            (* U+00E9, 2 bytes, 1 column *)
-Definition cjk (c : N) : ch := mkch c 2.          (* 3 bytes, 2 columns *)
 
 Theorem trunc_general_refuted :
   exists s w a o, Forall ch_ok s /\ w < cols s /\ padded s w a true = Ok o /\ cols o <> w.
